@@ -102,6 +102,14 @@ type world struct {
 	next int
 }
 
+func bytesOf(n int, seed byte) []byte {
+	b := make([]byte, n)
+	for i := range b {
+		b[i] = seed + byte(i)*3 | 1
+	}
+	return b
+}
+
 func nonceOf(p *dhcpv4.DHCPv4) int {
 	if p == nil {
 		return -1
@@ -198,6 +206,16 @@ func (w *world) datagram(sv *server, si int, kind string, req *ref4.P4) (*inject
 	p.UpdateOption(dhcpv4.OptGeneric(dhcpv4.GenericOptionCode(224), nb[:]))
 	in.mtype, in.xid, in.sid = int(mt), p.TransactionID, sid
 	copy(in.yi[:], p.YourIPAddr.To4())
+	if n%7 == 3 || n%7 == 5 { // exactly the maximum message size the client announces (1500 octets), and one octet less
+		target := 1500 - (n%7-3)/2
+		for v := 1150; v < 1270; v++ {
+			p.UpdateOption(dhcpv4.OptGeneric(dhcpv4.GenericOptionCode(250), bytesOf(v, byte(n))))
+			if len(p.ToBytes()) == target {
+				break
+			}
+			p.Options.Del(dhcpv4.GenericOptionCode(250))
+		}
+	}
 	b := p.ToBytes()
 	if kind == "undecodable" {
 		b = b[:100]
